@@ -282,6 +282,44 @@ def hx(s: str) -> str:
     return s.encode("latin-1").hex() or "-"
 
 
+SPELLINGS = ["quote", "decoded", "lower", "partial", "over"]
+
+
+def spell(tok: str, how: str, r: int) -> str:
+    """one percent-encoding ("spelling") of the token `tok`; every spelling decodes to `tok`
+    under urllib.parse.unquote.  quote: what generate_token hands out (%27, %2B, %3D …);
+    decoded: no escapes at all; lower: lower-case hex digits; partial: only some of the
+    characters that need quoting are escaped; over: letters and digits escaped as well"""
+    q = urllib.parse.quote(tok)
+    if "%" in tok or how == "quote":
+        return q
+    if how == "decoded":
+        return tok
+    if how == "lower":
+        out, i = [], 0
+        while i < len(q):
+            if q[i] == "%":
+                out.append(q[i:i + 3].lower())
+                i += 3
+            else:
+                out.append(q[i])
+                i += 1
+        return "".join(out)
+    out = []
+    for i, ch in enumerate(tok):
+        bit = (r >> (i % 29)) & 1
+        special = urllib.parse.quote(ch) != ch
+        if how == "partial":
+            out.append(urllib.parse.quote(ch) if (special and bit) else ch)
+        else:   # over
+            if special or bit:
+                e = "%%%02X" % ord(ch)
+                out.append(e.lower() if (r >> ((i + 7) % 29)) & 1 else e)
+            else:
+                out.append(ch)
+    return "".join(out)
+
+
 def gen_csrf_seq(rng, services, big: bool):
     """ops: ('i', svc, cookie, origin) | ('c', kind, …) resolved against earlier issues | ('p',)"""
     strict = rng.random() < 0.35
@@ -298,7 +336,7 @@ def gen_csrf_seq(rng, services, big: bool):
         elif k < 0.93:
             kind = rng.choice(["use", "use", "use", "reuse", "cross-service", "cross-cookie", "tamper-salt",
                                "tamper-sig", "truncate", "extend", "swap", "no-cookie", "empty-cookie",
-                               "cross-origin", "bogus-service"])
+                               "cross-origin", "bogus-service", "respell", "respell", "respell"])
             ops.append(("c", kind, rng.randrange(nissued), rng.randrange(1 << 30)))
         elif big or k < 0.96:
             ops.append(("p",))
@@ -374,12 +412,20 @@ def run_csrf_seq(w, rng_salt, strict, ops, cookies, origins, services, in_h_only
                         ck = ""
                     elif kind == "cross-origin":
                         origin = origins[2]
+                    # the text that is submitted: "respell" presents the untouched token in a
+                    # spelling other than the issued one, every other kind picks a spelling from r
+                    if kind == "respell":
+                        how = SPELLINGS[1 + (r >> 3) % 4]
+                    else:
+                        how = SPELLINGS[(r >> 3) % 5] if (r >> 2) & 1 else "quote"
+                    wire = spell(tok, how, r >> 6)
+                    tok = urllib.parse.unquote(wire)      # what the oracle counts: the token, not its spelling
                     headers = {"Origin": origin}
                     if ck is not None:
                         headers["Cookie"] = f"csrf={ck}"
                     with app.test_request_context("/", base_url=origin, headers=headers):
                         try:
-                            CsrfProtection.check(svc, urllib.parse.quote(tok))
+                            CsrfProtection.check(svc, wire)
                             res = "accepted"
                         except CsrfFailureException as e:
                             msg = str(e)
@@ -395,9 +441,9 @@ def run_csrf_seq(w, rng_salt, strict, ops, cookies, origins, services, in_h_only
                             res = f"exception:{type(e).__name__}"
                     outs.append(res)
                     ckx = "none" if ck is None else hx(ck)
-                    parts.append(f"c:{hx(svc)}:{ckx}:{hx(origin)}:{hx(tok)}")
-                    concrete.append({"op": "check", "kind": kind, "service": svc, "cookie": ck, "origin": origin,
-                                     "token": tok, "result": res})
+                    parts.append(f"c:{hx(svc)}:{ckx}:{hx(origin)}:{hx(wire)}")
+                    concrete.append({"op": "check", "kind": kind, "spelling": how, "service": svc, "cookie": ck,
+                                     "origin": origin, "submitted": wire, "token": tok, "result": res})
                     if res == "accepted":
                         match = [i for i in issued if i[0] == tok]
                         why = None
@@ -408,7 +454,7 @@ def run_csrf_seq(w, rng_salt, strict, ops, cookies, origins, services, in_h_only
                         elif not any(i[1] == svc and i[2] == ck for i in match):
                             why = "a token was accepted with a cookie it was not issued against"
                         elif tok in accepted:
-                            why = "a token was accepted twice"
+                            why = "a token was accepted twice"       # per token, whatever the spelling
                         if why:
                             fails.append({"clause": why, "at": len(outs) - 1})
                         accepted.add(tok)
@@ -431,8 +477,10 @@ def seq_json(seed_name, strict, ops, cookies, origins):
 
 def csrf_channel(ctx, w, table) -> Channel:
     ch = Channel("csrf_seq", rule=(
-        "seeded sequences of issue / use / reuse / cross-service / cross-cookie / tamper (salt, signature, "
-        "truncate, extend, swap signatures) / missing or empty cookie / cross-origin / prune operations run on "
+        "seeded sequences of issue / use / reuse / re-spelled reuse (the same token in another percent-encoding: "
+        "decoded, lower-case escapes, partially encoded, over-encoded) / cross-service / cross-cookie / tamper (salt, "
+        "signature, truncate, extend, swap signatures) / missing or empty cookie / cross-origin / prune operations, "
+        "every submitted text in a seeded spelling, run on "
         "the real CsrfProtection inside test request contexts and on the Lean state machine; per-operation "
         "results diffed; non-trivial = the sequence contains a use of an issued token plus at least one "
         "adversarial operation; distinct by the full operation list"))
@@ -462,6 +510,9 @@ def csrf_channel(ctx, w, table) -> Channel:
         for r in outs:
             if r in ("accepted", "reuse", "badSignature", "noCookie"):
                 ch.count("result|" + r)
+        for cop in concrete:
+            if cop["op"] == "check":
+                ch.count("spelling|" + cop["spelling"])
         ch.count("strict_origin" if strict else "default_origin")
         if "use" in kinds and len(kinds) >= 2:
             ch.nontrivial.add(json.dumps(sj["ops"]) + str(strict))
@@ -477,6 +528,100 @@ def csrf_channel(ctx, w, table) -> Channel:
                                      "op": concrete[first] if first < len(concrete) else None})
         ch.sample({"strict": strict, "ops": [c.get("kind", c["op"]) for c in concrete][:10],
                    "results": [r if len(r) < 20 else "token" for r in outs][:10]}, limit=3)
+    return ch
+
+
+# ---------------------------------------------------------------------------------------------
+# csrf_http: a used token replayed over HTTP in another spelling
+
+HTTP_REPLAY_ROUTES = [
+    # (route, method, service, role) – state-changing requests whose only variable guard is the CSRF token
+    ("edit-stream-defaults", "POST", "streams", "media"),
+    ("add-key", "PUT", "keys", "media"),
+    ("api-add-mps", "PUT", "streams", "media"),
+]
+
+
+def _http_replay_request(w, route, n, wire):
+    """n-th state-changing request of the pair (payloads differ so that a second acceptance is visible)"""
+    s = w.sessions["media"]
+    c = w.client("media", True)
+    if route == "edit-stream-defaults":
+        return c.post(f"/stream/{w.ids['spk']}/defaults", data={"csrf_token": wire, "depth": str(30 + n)})
+    if route == "add-key":
+        return c.put("/key", query_string={"kid": f"{n + 1:02x}" * 16, "key": "ab" * 16, "csrf_token": wire})
+    if route == "api-add-mps":
+        return c.put("/api/multi-period-streams/.add",
+                     json={"name": f"c15replay{n}", "title": "C15 replay", "periods": [], "csrf_token": wire},
+                     headers={"Authorization": f"Bearer {s.access}"})
+    raise ValueError(route)
+
+
+def run_http_replay(w, route, svc, first, second, r):
+    w.restore()
+    s = w.sessions["media"]
+    tok = urllib.parse.unquote(s.csrf[svc])
+    w1, w2 = spell(tok, first, r), spell(tok, second, r >> 5)
+    r1 = _http_replay_request(w, route, 0, w1)
+    after1 = (w.db_fingerprint(), w.blob_listing())
+    changed1 = bool(w.changes())
+    r2 = _http_replay_request(w, route, 1, w2)
+    changed2 = (w.db_fingerprint(), w.blob_listing()) != after1
+    obs = ["accepted" if changed1 else "refused", "accepted" if changed2 else "refused"]
+    line = (f"csrf_seq 0 i:{hx(svc)}:{hx(s.csrf_cookie)}:{hx('http://localhost')}:{hx(tok[:8])}:{hx(tok[8:])};"
+            f"c:{hx(svc)}:{hx(s.csrf_cookie)}:{hx('http://localhost')}:{hx(w1)};"
+            f"c:{hx(svc)}:{hx(s.csrf_cookie)}:{hx('http://localhost')}:{hx(w2)}")
+    fail = None
+    if changed1 and changed2:
+        fail = {"channel": "csrf_http", "clause": "a token was accepted twice",
+                "http_replay": {"route": route, "service": svc, "first": first, "second": second, "r": r},
+                "submitted": [w1, w2], "status": [r1.status_code, r2.status_code]}
+    return line, obs, fail, [r1.status_code, r2.status_code]
+
+
+def csrf_http_channel(ctx, w, table) -> Channel:
+    ch = Channel("csrf_http", rule=(
+        "state-changing requests of the media role sent twice with the same harvested CSRF token, the two "
+        "submissions in every ordered pair of spellings (quote/decoded/lower/partial/over, including equal "
+        "ones), payloads different so that a second acceptance shows in the fingerprint; compared with the "
+        "Lean state machine (accepted;reuse); non-trivial = the two spellings differ"))
+    rng = ctx.rng("csrf_http")
+    present = {(r["route"], r["method"]) for r in table["rows"]}
+    cases = []
+    for route, verb, svc, role in HTTP_REPLAY_ROUTES:
+        if (route, verb) not in present:
+            continue
+        for a in SPELLINGS:
+            for b in SPELLINGS:
+                cases.append((route, svc, a, b, rng.randrange(1 << 30)))
+    lines, res = [], []
+    for route, svc, a, b, r in cases:
+        try:
+            line, obs, fail, status = run_http_replay(w, route, svc, a, b, r)
+        except Exception as e:    # noqa: BLE001
+            ch.errors.append(f"{route} {a}->{b}: {type(e).__name__}: {e}")
+            continue
+        lines.append(line)
+        res.append((route, svc, a, b, r, obs, fail, status))
+    w.restore()
+    try:
+        model = common.run_driver(lines)
+    except Exception as e:
+        ch.errors.append(f"driver: {e}")
+        model = ["driver-error"] * len(lines)
+    for (route, svc, a, b, r, obs, fail, status), mo in zip(res, model):
+        ch.evaluations += 1
+        ch.count(f"{route}|{'same' if a == b else 'different'}-spelling|{obs[0]},{obs[1]}")
+        if a != b:
+            ch.nontrivial.add((route, a, b))
+        if fail:
+            ch.oracle_failures.append(fail)
+        if mo != "driver-error":
+            want = ["accepted" if x == "accepted" else "refused" for x in mo.split(";")[1:]]
+            if want != obs:
+                ch.disagreements.append({"http_replay": {"route": route, "service": svc, "first": a, "second": b, "r": r},
+                                         "model": want, "impl": obs, "status": status})
+        ch.sample({"route": route, "first": a, "second": b, "observed": obs, "status": status}, limit=3)
     return ch
 
 
@@ -508,6 +653,7 @@ def channels(ctx):
     yield xcheck_channel(w, table)
     yield authz_channel(ctx, w, table)
     yield csrf_channel(ctx, w, table)
+    yield csrf_http_channel(ctx, w, table)
 
 
 # ---------------------------------------------------------------------------------------------
@@ -590,6 +736,12 @@ def replay(ctx, payload):
         obs, fail = run_authz_case(w, row, role, flags)
         return {"fails": bool(fail), "case": f["case"], "documented": row["kind"], "status": obs["status"],
                 "body_entered": obs["entered"], "changed": obs["changed"], "request": obs["request"]}
+    if "http_replay" in f:
+        w = c15_world.world()
+        h = f["http_replay"]
+        _, obs, fail, status = run_http_replay(w, h["route"], h["service"], h["first"], h["second"], h["r"])
+        w.restore()
+        return {"fails": bool(fail), "observed": obs, "status": status, "http_replay": h}
     if "sequence" in f:
         w = c15_world.world()
         s = f["sequence"]
